@@ -75,7 +75,7 @@ theorem step_retr_core (s : Sess) (rs : RSt) (h : Sim s rs) (verb arg : Bytes) (
     (x2 : ∀ i m, msgno s arg = .ok i → s.msgs[i]? = some m → fsFind s.fs m.fn = none →
             exec s verb arg = (s, errLine "unable to open that message", none))
     (x3 : ∀ i m f, msgno s arg = .ok i → s.msgs[i]? = some m → fsFind s.fs m.fn = some f →
-            exec s verb arg = (s, okLine ++ blast (topLimit arg) f.data, none))
+            exec s verb arg = (s, okLine ++ blast (if top then topLimit arg else 0) f.data, none))
     (href : refStep rs (lower verb) arg =
       (match rs.valid arg with
        | none => (rs, .err)
@@ -83,9 +83,11 @@ theorem step_retr_core (s : Sess) (rs : RSt) (h : Sim s rs) (verb arg : Bytes) (
          | none => (rs, .err)
          | some m =>
            if rs.gone.contains m.path then (rs, .err)
-           else match rs.num (((leadNumber arg).2).dropWhile (· = SP)) with
+           else if top then
+             match rs.num (((leadNumber arg).2).dropWhile (· = SP)) with
              | some k => (rs, .multi (topLines k (lines m.data) ++ [[]]))
-             | none => if top then (rs, .multiOrErr (lines m.data ++ [[]])) else (rs, .multi (lines m.data ++ [[]])))) :
+             | none => (rs, .multiOrErr (lines m.data ++ [[]]))
+           else (rs, .multi (lines m.data ++ [[]])))) :
     StepOk s rs verb arg := by
   have hnum : rs.num (((leadNumber arg).2).dropWhile (· = SP)) = topCount arg := by
     rw [num_eq rs h.modz]
@@ -123,24 +125,26 @@ theorem step_retr_core (s : Sess) (rs : RSt) (h : Sim s rs) (verb arg : Bytes) (
         have := h.total
         omega
       have hdec := fun w => top_decoded arg f.data w hlen
-      cases hc : topCount arg with
-      | some k =>
-        have e2 : refStep rs (lower verb) arg = (rs, .multi (topLines k (lines r.data) ++ [[]])) := by
-          rw [href]; simp [hval, hri, hg, hc]
+      cases top with
+      | false =>
+        have e2 : refStep rs (lower verb) arg = (rs, .multi (lines r.data ++ [[]])) := by
+          rw [href]; simp [hval, hri, hg]
         refine ⟨fun w => ?_, by rw [e1, e2]; exact h, by rw [e1], fun hh => by rw [e2] at hh; cases hh⟩
         rw [e1, e2]
         apply match_multi
-        rw [hdec w, hc, hdata]
-      | none =>
-        cases top with
-        | false =>
-          have e2 : refStep rs (lower verb) arg = (rs, .multi (lines r.data ++ [[]])) := by
+        simp only [Bool.false_eq_true, if_false]
+        rw [retr_decoded, hdata]
+      | true =>
+        simp only [if_true] at e1
+        cases hc : topCount arg with
+        | some k =>
+          have e2 : refStep rs (lower verb) arg = (rs, .multi (topLines k (lines r.data) ++ [[]])) := by
             rw [href]; simp [hval, hri, hg, hc]
           refine ⟨fun w => ?_, by rw [e1, e2]; exact h, by rw [e1], fun hh => by rw [e2] at hh; cases hh⟩
           rw [e1, e2]
           apply match_multi
           rw [hdec w, hc, hdata]
-        | true =>
+        | none =>
           have e2 : refStep rs (lower verb) arg = (rs, .multiOrErr (lines r.data ++ [[]])) := by
             rw [href]; simp [hval, hri, hg, hc]
           refine ⟨fun w => ?_, by rw [e1, e2]; exact h, by rw [e1], fun hh => by rw [e2] at hh; cases hh⟩
@@ -150,19 +154,25 @@ theorem step_retr_core (s : Sess) (rs : RSt) (h : Sim s rs) (verb arg : Bytes) (
 
 theorem step_retr (s : Sess) (rs : RSt) (h : Sim s rs) (verb arg : Bytes) (hL : lower verb = vRetr) :
     StepOk s rs verb arg := by
+  have hlim : limitFor verb arg = 0 := limitFor_retr verb arg (by simp [verbIs, hL, vRetr, vTop])
   apply step_retr_core s rs h verb arg false
   · intro e hm; simp [exec, verbIs, hL, hm, vQuit, vStat, vList, vUidl, vDele, vRetr, vTop]
   · intro i m hm hmi hf; simp [exec, verbIs, hL, hm, hmi, hf, vQuit, vStat, vList, vUidl, vDele, vRetr, vTop]
-  · intro i m f hm hmi hf; simp [exec, verbIs, hL, hm, hmi, hf, vQuit, vStat, vList, vUidl, vDele, vRetr, vTop]
+  · intro i m f hm hmi hf
+    simp only [exec, hlim]
+    simp [verbIs, hL, hm, hmi, hf, vQuit, vStat, vList, vUidl, vDele, vRetr, vTop]
   · rw [hL]; simp [refStep, vRetr]; rfl
 
 theorem step_top (s : Sess) (rs : RSt) (h : Sim s rs) (verb arg : Bytes) (hL : lower verb = vTop) :
     StepOk s rs verb arg := by
+  have hlim : limitFor verb arg = topLimit arg := limitFor_top verb arg (by simp [verbIs, hL])
   apply step_retr_core s rs h verb arg true
   · intro e hm; simp [exec, verbIs, hL, hm, vQuit, vStat, vList, vUidl, vDele, vRetr, vTop]
   · intro i m hm hmi hf; simp [exec, verbIs, hL, hm, hmi, hf, vQuit, vStat, vList, vUidl, vDele, vRetr, vTop]
-  · intro i m f hm hmi hf; simp [exec, verbIs, hL, hm, hmi, hf, vQuit, vStat, vList, vUidl, vDele, vRetr, vTop]
-  · rw [hL]; simp [refStep, vTop]; rfl
+  · intro i m f hm hmi hf
+    simp only [exec, hlim]
+    simp [verbIs, hL, hm, hmi, hf, vQuit, vStat, vList, vUidl, vDele, vRetr, vTop]
+  · rw [hL]; simp [refStep, vTop, vRetr]; rfl
 
 /-- **Step simulation.** For every command that is not QUIT: the model's reply, followed by anything,
 is accepted by the reference as the reply to that command (with exactly the reply consumed), the
